@@ -21,6 +21,10 @@ ALLOWED_DELETE = {'os.remove', 'os.unlink', 'os.rmdir', 'shutil.rmtree'}
 LINK_SAFE = {'os.remove', 'os.unlink', 'os.rmdir'}
 
 
+# rules of sibling properties that are necessary conditions of this one too
+# (evaluated by the sibling module on the same graphs, reported under this property)
+ALSO = {'C08': {'R08.1': 'a $topdir/.Trash that is a symlink is never emptied through'}}
+
 def check(ctx):
     # ---- R11.5 the payload name derived from an info name is a real name
     for cmd in ('empty', 'rm', 'restore'):
